@@ -174,7 +174,7 @@ Fixpoint cps_loop (fuel k maxk : nat) (r : rep) (nss : nssT) : rep * res unit :=
 Definition completePotentialSimplices (r : rep) (nss : nssT) : rep * res unit :=
   match nss with
   | [] => (r, Raise ValueError)                 (* max() of an empty sequence *)
-  | _ => cps_loop (length (simplicesOfOrder r 0) + 4) 1 (nss_maxkey nss) r nss
+  | _ => cps_loop (nss_maxkey nss + length (simplicesOfOrder r 0) + 4) 1 (nss_maxkey nss) r nss
   end.
 
 Definition flag_seed (r : rep) : nssT :=
